@@ -15,22 +15,35 @@ from ..impl import c07_gen as G
 META = {
     "property_id": "C07",
     "design_ref": "DESIGN.md section 5, C07 (+ Appendix B7)",
-    "technique": "Coq proof over R of ONE model of every quantity, parametric in a bare operations record whose formulas "
-                 "(cross, areas, cotangent, determinant, /2 and /6, corner index arithmetic, border constants, weighting "
-                 "formulas) are regenerated from geometry.py / attributes/*.py on every run; the same definitions are "
-                 "executed in Q and in binary64 inside Coq against the real library on generated meshes (kernel-checked "
-                 "batches); independent Python oracle (fractions/math) restates the textbook definitions, invariance, "
-                 "angle sums, Gauss-Bonnet and constant preservation",
-    "level_text": "see Props.v: definitions = textbook expressions, invariance under every rotation matrix + translation "
-                  "and scaling powers, renumbering/face-rotation equivariance, angle sum of a triangle, Gauss-Bonnet for "
-                  "manifold triangulations, constant preservation of every interpolation are machine-checked theorems "
-                  "(unbounded) about the model; the model is tied to the code by the translator and by kernel-evaluated "
-                  "correspondence batches; face_circumcenter is pending the repair of defect #15 (owned by C12) and is "
-                  "not claimed.",
+    "technique": "Coq proof over R of ONE model of every quantity, parametric in a bare operations record, whose formulas "
+                 "(cross, norm, distance, triangle/quad/n-gon area, cotangent, angle pair, Sarrus determinant, face basis, "
+                 "circumcentre, /2 and /6, corner index arithmetic first+3-iA-iB, border constants 2pi/pi/0, every weighting "
+                 "formula of interpolate.py, the means of glob.py) are regenerated from geometry.py / attributes/*.py by a "
+                 "fail-closed translator on every run; the same definitions are executed in exact rationals and in binary64 "
+                 "inside Coq against the real library on generated meshes (kernel-checked batches); an independent Python "
+                 "oracle (fractions/math) restates the textbook definitions, invariance inside families of transformed "
+                 "meshes, angle sums, Gauss-Bonnet and constant preservation on the implementation's outputs",
+    "level_text": "Machine-checked, unbounded theorems over R about the model (Props.v): C07_definitions (every formula = "
+                  "its textbook expression; full), C07_rigid_invariance (every rotation matrix R^T R = I, det 1, every "
+                  "translation, every well-formed mesh: all attributes invariant / equivariant, incl. vertex normals for the "
+                  "three weightings and the global sums and means; full except face_circumcenter), C07_scaling (powers s, "
+                  "s^2, s^3, 1 of every formula; full at formula level), C07_angle_sum (the three (cos,sin) pairs compose to "
+                  "(-1,0) AND atan2 of them sums to PI; full), C07_gauss_bonnet (sum of the model's defects = 2 pi chi for "
+                  "every triangulation satisfying an explicit, boolean-checkable manifold condition, closed or with border; "
+                  "counting lemmas 3F=2Ei+Eb, Vb=Eb proved; full), C07_interpolate_constant (5 of the 6 functions, all "
+                  "averaging weightings; average_corners_to_faces is tested only), C07_circumcenter (equidistant + in-plane "
+                  "for the repaired code; full), C07_renumbering_partial (per-edge/face/corner/cell quantities and face "
+                  "rotation for triangles and quads; vertex-indexed accumulations under renumbering are tested only), "
+                  "C07_face_normal_rotation_refuted (recorded finding: the normal of a skew quad depends on where its vertex "
+                  "list starts). The model is tied to the code by the translator and by kernel-evaluated correspondence "
+                  "batches over every function and option.",
     "level_note": "Trusted: Coq kernel + vm_compute + PrimFloat; the C07 translator; the correspondence harness "
                   "(generators, driver, tolerance 1e-9(1+|x|) on exactly representable inputs, Python's math.cos/sin used "
-                  "to relate an atan2 output to the model's (cos,sin) pair); numpy/CPython float semantics; theorems over "
-                  "R use the three axioms of Coq's Reals.",
+                  "to relate an atan2 output to the model's (cos,sin) pair, math.atan2 itself identified with the angle in "
+                  "(0,pi) of that pair); numpy/CPython float semantics; the per-element loops, caches (persistent "
+                  "attributes reused by later calls) and the mesh connectivity are modelled by hand and tied by the "
+                  "correspondence only. Theorems over R use the axioms of Coq's Reals (and classic, through the "
+                  "trigonometry library).",
 }
 
 HEADER = """From Coq Require Import ZArith List Bool.
@@ -99,6 +112,8 @@ def obs_term(call, res):
         return "(O_face_normals %s)" % vl(v)
     if nm == "face_bary":
         return "(O_face_bary %s)" % vl(v)
+    if nm == "circum":
+        return "(O_circum %s)" % vl(v)
     if nm == "angles":
         return None  # carried by c_ang (the reference run) and by the oracle
     if nm == "cot":
@@ -215,6 +230,15 @@ class Truth:
         l = fsqrt(G.dot(n, n))
         return [float(x) / l for x in n]
 
+    def circumcenter(self, f):
+        """the point of the triangle's plane equidistant from its three vertices (exact rational formula)"""
+        a, b, c = (self.P(v) for v in f)
+        u, w = G.sub(b, a), G.sub(c, a)
+        n = G.cross(u, w)
+        uu, ww, nn = G.dot(u, u), G.dot(w, w), G.dot(n, n)
+        d = G.cross([uu * w[i] - ww * u[i] for i in range(3)], n)
+        return [float(a[i] + d[i] / (2 * nn)) for i in range(3)]
+
     def mean_pt(self, vs):
         k = len(vs)
         return [float(sum(self.P(v)[i] for v in vs) / k) for i in range(3)]
@@ -264,6 +288,8 @@ def expected(T, edges, call):
         return [T.face_normal(f) for f in T.F]
     if nm == "face_bary":
         return [T.mean_pt(f) for f in T.F]
+    if nm == "circum":
+        return [T.circumcenter(f) for f in T.F]
     if nm == "angles":
         return T.angles()
     if nm == "cot":
@@ -417,6 +443,12 @@ def oracle_case(case, out):
                 if not close(s, math.pi):
                     bad.append((k, "angles of triangle %d sum to %r, not pi" % (fi, s)))
                     break
+        if call[0] == "circum" and finite(got):
+            for fi, (f, cc) in enumerate(zip(T.F, got)):
+                ds = [math.sqrt(sum((cc[i] - float(T.P(v)[i])) ** 2 for i in range(3))) for v in f]
+                if not (close(ds[0], ds[1], scale=ds[0]) and close(ds[0], ds[2], scale=ds[0])):
+                    bad.append((k, "circumcenter of face %d is not equidistant from its vertices: %r" % (fi, ds)))
+                    break
         if call[0] == "defects" and not call[1] and finite(got) and not case.get("C"):
             chi = len(T.V) - len(T.und_edges()) + len(T.F)
             if not close(sum(got), 2 * math.pi * chi, scale=10.0):
@@ -438,7 +470,7 @@ def _opts(call):
 # ---- invariance between a base case and its transformed variant (same script)
 POWER = {"edge_length": 1, "face_area": 2, "angles": 0, "cot": 0, "cw": 0, "defects": 0, "cell_volume": 3, "mean_edge": 1,
          "mean_area": 2, "mean_vol": 3, "total_area": 2, "v2f": 0, "f2v": 0, "sv2c": 0, "sf2c": 0, "c2v": 0, "c2f": 0}
-POINTS = {"edge_middle", "face_bary", "cell_bary", "bary"}
+POINTS = {"edge_middle", "face_bary", "cell_bary", "bary", "circum"}
 DIRS = {"face_normals", "vnormals"}
 
 
@@ -496,7 +528,7 @@ def oracle_renumbering(base, bout, var, vout):
         skew = nm in ("vnormals", "face_normals") and not planar_faces
         if nm in ("degree", "defects", "vnormals", "f2v", "c2v"):   # vertex-indexed
             ok = all(same(b[u], v[sigma[u]]) for u in range(len(sigma)))
-        elif nm in ("face_area", "face_normals", "face_bary", "v2f", "c2f") and "order" in ren:   # face-indexed
+        elif nm in ("face_area", "face_normals", "face_bary", "circum", "v2f", "c2f") and "order" in ren:   # face-indexed
             ok = all(same(b[ren["order"][kk]], v[kk]) for kk in range(len(ren["order"])))
         elif nm in ("cell_volume", "cell_bary") and "corder" in ren:
             ok = all(same(b[ren["corder"][kk]], v[kk]) for kk in range(len(ren["corder"])))
@@ -659,7 +691,7 @@ def shrink_case(case, k, fails_many, deadline):
 # ====================================================================== the check
 def run(ctx):
     quick = ctx.tier == "quick"
-    n_fam = 110 if quick else 2200
+    n_fam = 90 if quick else 900
     ctx.rule = ("families = one integer-coordinate manifold mesh (triangle 62% / quad 20% / planar-polygon 18% surfaces with "
                 "borders, holes, genus 0-1; tetrahedral volumes 12%) + 2-3 variants (integer translation, signed-permutation "
                 "rotation, exact integer similarity N*R from a Pythagorean quaternion, rational rotation rounded to binary64, "
@@ -736,8 +768,18 @@ def run(ctx):
     if b["model_ok"]:
         idx = [i for i, o in enumerate(outs) if "build_error" not in o]
         terms = [case_term(cases[i], outs[i]) for i in idx]
-        r = ctx.run_cases("geom", HEADER, terms, "check_case", case_type="case", shard=(20 if quick else 60), timeout=900)
-        bad = [idx[j] for j in (r or [])]
+        # chunks of <= 640 cases; a chunk whose shards were killed (memory pressure on a shared machine) is retried
+        # once with smaller shards before it counts as not evaluated
+        chunk = 640
+        for c0 in range(0, len(terms), chunk):
+            sub = terms[c0:c0 + chunk]
+            nob = len(ctx.obligations)
+            r = ctx.run_cases("geom%d" % (c0 // chunk), HEADER, sub, "check_case", case_type="case", shard=(20 if quick else 40), timeout=900)
+            if r is None:
+                ctx.log("correspondence chunk %d could not be evaluated; retrying with smaller shards" % (c0 // chunk))
+                del ctx.obligations[nob:]
+                r = ctx.run_cases("geom%dr" % (c0 // chunk), HEADER, sub, "check_case", case_type="case", shard=10, timeout=900)
+            bad += [idx[c0 + j] for j in (r or [])]
     else:
         ctx.obligation("correspondence batches", "correspondence", False, "model does not compile")
 
